@@ -65,6 +65,7 @@ type Ctx struct {
 	Obls          []*Obligation
 	oblIdx        map[string]*Obligation
 	Stats         map[string]int
+	Traced        map[*ssa.Function]bool
 	Notes         []string
 	Tables        map[string]interface{}
 	ModPath       string
@@ -82,6 +83,14 @@ func (c *Ctx) note(format string, a ...interface{}) {
 }
 
 func (c *Ctx) stat(k string, n int) { c.Stats[k] += n }
+
+// traced records that fn's body was walked by the path enumerator (as an entry point or inlined).
+func (c *Ctx) traced(fn *ssa.Function) {
+	if c.Traced == nil {
+		c.Traced = map[*ssa.Function]bool{}
+	}
+	c.Traced[fn] = true
+}
 
 // add registers an obligation; if the same rule+construct is reported twice the worse status wins
 // (VIOLATED > UNDECIDED > HOLDS) and details are concatenated.
@@ -290,6 +299,11 @@ func (c *Ctx) finish(start time.Time, seed int, fatal error) int {
 	if len(c.Tables) > 0 {
 		cov["tables"] = c.Tables
 	}
+	// which functions of the analysed packages had their bodies walked, and which did not (the blind spots)
+	if walked, not := c.functionCoverage(); walked+len(not) > 0 {
+		cov["functions_walked"] = walked
+		cov["functions_not_walked"] = not
+	}
 	ev := evidence{PropertyID: p.ID, Tier: c.Tier, Seed: seed, Level: "other", Coverage: cov,
 		Assumptions: p.Assumptions, WallS: time.Since(start).Seconds(), Violations: nviol}
 	if ev.Assumptions == nil {
@@ -316,4 +330,81 @@ func (c *Ctx) finish(start time.Time, seed int, fatal error) int {
 		}
 	}
 	return exit
+}
+
+// functionCoverage: source functions of the property's packages whose body the path enumerator entered, and the
+// names of those it never entered (not every rule works on traces: AST/SSA-level rules look at functions that
+// are listed here as not walked).
+func (c *Ctx) functionCoverage() (int, []string) {
+	walked := 0
+	not := []string{}
+	seen := map[string]bool{}
+	anchors := c.anchorFiles()
+	for _, fn := range c.allSourceFuncs() {
+		if len(anchors) > 0 {
+			file := c.Fset.Position(fn.Pos()).Filename
+			rel, err := filepath.Rel(c.RepoDir, file)
+			if err != nil || !anchors[filepath.ToSlash(rel)] {
+				continue
+			}
+		}
+		name := c.fname(fn)
+		if seen[name] {
+			continue
+		}
+		seen[name] = true
+		hit := c.Traced[fn]
+		if !hit {
+			// instantiations of a generic function count for their origin
+			for t := range c.Traced {
+				if t.Origin() == fn {
+					hit = true
+				}
+			}
+		}
+		if hit {
+			walked++
+		} else {
+			not = append(not, name)
+		}
+	}
+	sort.Strings(not)
+	return walked, not
+}
+
+// allSourceFuncs: every source function (methods, closures included) of the packages named by the property's patterns.
+func (c *Ctx) allSourceFuncs() []*ssa.Function {
+	var out []*ssa.Function
+	for _, pkg := range c.Pkgs {
+		rel := strings.TrimPrefix(strings.TrimPrefix(pkg.PkgPath, c.ModPath), "/")
+		for _, fn := range c.funcsOf(rel) {
+			if fn.Synthetic == "" {
+				out = append(out, fn)
+			}
+		}
+	}
+	return out
+}
+
+// anchorFiles: the source files the property is anchored in (properties.jsonl, anchors.files); empty if unavailable.
+func (c *Ctx) anchorFiles() map[string]bool {
+	out := map[string]bool{}
+	b, err := os.ReadFile(filepath.Join(c.VerifDir, "properties.jsonl"))
+	if err != nil {
+		return out
+	}
+	for _, line := range strings.Split(string(b), "\n") {
+		var p struct {
+			ID      string `json:"id"`
+			Anchors struct {
+				Files []string `json:"files"`
+			} `json:"anchors"`
+		}
+		if json.Unmarshal([]byte(line), &p) == nil && p.ID == c.Prop.ID {
+			for _, f := range p.Anchors.Files {
+				out[f] = true
+			}
+		}
+	}
+	return out
 }
